@@ -43,10 +43,10 @@ pub fn workload(tier: Tier) -> Vec<Work> {
     let mut w: Vec<Work> = Vec::new();
     let plain = |c: PCase| Work { space: c.space, prog: c.prog, stack: c.stack, layout: Layout::PLAIN };
     w.extend(e1_single_statements(tier == Tier::Thorough).into_iter().map(plain));
-    for n in 1..=tier.pick(4, 5) {
+    for n in 1..=tier.pick(4, 6) {
         w.extend(e2_single_reference(n).into_iter().map(plain));
     }
-    for n in 2..=tier.pick(3, 4) {
+    for n in 2..=tier.pick(3, 5) {
         w.extend(e2_two_references(n).into_iter().map(plain));
     }
     // E3: far labels at the in-range extremes
